@@ -318,6 +318,10 @@ def extract(repo):
     out["axiRouter"] = load("hw", "floo_axi_router.sv")
     out["nwRouter"] = load("hw", "floo_nw_router.sv")
 
+    # the two network interfaces, whole: which configuration field enables which side, what is tied off
+    out["axiChimney"] = list(chim[0][1])
+    out["nwChimney"] = list(chim[1][1])
+
     # floo_pkg::set_ports (argument order: subordinate enable, then manager enable)
     def set_ports():
         q = pk.index("set_ports")
@@ -487,7 +491,7 @@ def toks_lean(ts, ind=4):
     return "[\n" + "\n".join(lines) + "\n" + " " * (ind - 2) + "]"
 
 
-FLAT_FIELDS = ['xyRest', 'routeSelWidth', 'idBlock', 'routerSelect', 'routerMask', 'compCond', 'compTable', 'compRoute', 'routerDefaults', 'compAll', 'setPorts', 'axiRouter', 'nwRouter', 'selectAll', 'routerAll']
+FLAT_FIELDS = ['axiChimney', 'nwChimney', 'xyRest', 'routeSelWidth', 'idBlock', 'routerSelect', 'routerMask', 'compCond', 'compTable', 'compRoute', 'routerDefaults', 'compAll', 'setPorts', 'axiRouter', 'nwRouter', 'selectAll', 'routerAll']
 NESTED_FIELDS = ['branches', 'chimneyComp', 'chimneyIds', 'tbJobs']
 
 
@@ -569,6 +573,8 @@ def rtlFacts : RtlFacts where
   nwRouter := frag_nwRouter
   selectAll := frag_selectAll
   routerAll := frag_routerAll
+  axiChimney := frag_axiChimney
+  nwChimney := frag_nwChimney
   branches := frag_branches
   chimneyComp := frag_chimneyComp
   chimneyIds := frag_chimneyIds
